@@ -15,7 +15,9 @@ import (
 	"bytes"
 	"fmt"
 	"io"
+	"math/big"
 	"math/rand"
+	"net"
 	"net/http"
 	"net/http/httptest"
 	"os"
@@ -40,7 +42,7 @@ import (
 )
 
 const preamble = `From Coq Require Import List NArith String.
-From Fabio Require Import Lib.Outcome Lib.Bytes Lib.Pack Model.Interleave Model.GlobCacheC06 Check.C06.
+From Fabio Require Import Lib.Outcome Lib.Bytes Lib.Pack Model.Interleave Model.GlobCacheC06 Model.Access Check.C06.
 Import ListNotations.
 `
 
@@ -1375,6 +1377,184 @@ func min(a, b int) int {
 	return b
 }
 
+// ---------- H. access decisions of requests sharing a peer or an X-Forwarded-For list ----------
+func bigN(b []byte) string { return new(big.Int).SetBytes(b).String() + "%N" }
+
+func coqOptIP(ip net.IP) string {
+	switch len(ip) {
+	case 0:
+		return vh.None
+	case 4:
+		return vh.Some("(IP4 " + bigN(ip) + ")")
+	case 16:
+		return vh.Some("(IP16 " + bigN(ip) + ")")
+	}
+	panic("coqOptIP: length")
+}
+
+func coqNets(l []*net.IPNet) string {
+	items := make([]string, len(l))
+	for i, n := range l {
+		ones, bits := n.Mask.Size()
+		ip := coqOptIP(n.IP)
+		items[i] = fmt.Sprintf("{| n_ip := %s; n_ones := %s; n_m16 := %s |}", ip[6:len(ip)-1], vh.N(ones), vh.Bool(bits == 128))
+	}
+	return vh.List(items)
+}
+
+func stripZone(s string) string {
+	if i := strings.IndexByte(s, '%'); i >= 0 {
+		return s[:i]
+	}
+	return s
+}
+
+type accReq struct {
+	remote string
+	xff    []string
+}
+
+var accRules = []string{
+	"allow=ip:10.0.0.0/8,ip:192.168.1.5",
+	"deny=ip:203.0.113.0/24,ip:198.51.100.7",
+	"allow=ip:2001:db8::/32,ip:10.0.0.0/8",
+	"deny=ip:fe80::/10,ip:2001:db8:bad::/48,ip:172.16.0.0/12",
+}
+var accPeers = []string{"10.0.0.1:4000", "203.0.113.9:555", "192.168.1.5:1", "[2001:db8::1]:443", "[fe80::1%eth0]:80", "198.51.100.7:9", "172.20.1.1:80"}
+var accElems = []string{"10.1.2.3", "203.0.113.77", "172.16.0.9", "2001:db8::5", "2001:db8:bad::1", "fe80::2", "198.51.100.7", " 10.9.9.9", "garbage", "192.168.1.5", "8.8.8.8", "::ffff:203.0.113.5"}
+
+func accessCases(run *vh.Run) {
+	r := run.Rng
+	randXFF := func() []string {
+		var vals []string
+		for h := r.Intn(3); h > 0; h-- {
+			var el []string
+			for k := 1 + r.Intn(3); k > 0; k-- {
+				el = append(el, accElems[r.Intn(len(accElems))])
+			}
+			vals = append(vals, strings.Join(el, []string{", ", ","}[r.Intn(2)]))
+		}
+		return vals
+	}
+	serveOne := func(p *proxy.HTTPProxy, q accReq) (denied bool, pv interface{}) {
+		rec := httptest.NewRecorder()
+		req := newReq("acc.example", "/", q.remote)
+		for _, v := range q.xff {
+			req.Header.Add("X-Forwarded-For", v)
+		}
+		pv, _ = guarded(func() { p.ServeHTTP(rec, req) })
+		return rec.Code == 403, pv
+	}
+	for i := 0; i < run.Scale(48, 1200); i++ {
+		rule := accRules[i%len(accRules)]
+		n := 3 + r.Intn(6)
+		reqs := make([]accReq, n)
+		shape := []string{"same-peer", "same-xff", "mixed"}[(i/len(accRules))%3]
+		peer, xff := accPeers[r.Intn(len(accPeers))], randXFF()
+		for k := range reqs {
+			switch shape {
+			case "same-peer": // one front proxy, different client lists
+				reqs[k] = accReq{peer, randXFF()}
+			case "same-xff": // the same client list through different peers
+				reqs[k] = accReq{accPeers[r.Intn(len(accPeers))], xff}
+			default:
+				reqs[k] = accReq{accPeers[r.Intn(len(accPeers))], randXFF()}
+			}
+		}
+		for _, conc := range []bool{false, true} {
+			tbl := mustTable(`route add acc acc.example/ http://acc.internal:80/ opts "` + rule + `"`)
+			gc := route.NewGlobCache(8)
+			p := &proxy.HTTPProxy{Config: config.Proxy{}, Transport: stubRT{}, Lookup: func(req *http.Request) *route.Target {
+				return tbl.Lookup(req, "", rrPick, prefixMatch, gc, false)
+			}}
+			tg := tbl["acc.example"][0].Targets[0]
+			allow, deny, keys, other := route.VerifAccessRules(tg)
+			if other != 0 {
+				run.Exclude("access rule map with foreign entries")
+				continue
+			}
+			ra, rd := vh.None, vh.None
+			for _, k := range keys {
+				if k == "allow:ip" {
+					ra = vh.Some(coqNets(allow))
+				} else if k == "deny:ip" {
+					rd = vh.Some(coqNets(deny))
+				}
+			}
+			impl := make([]bool, n)
+			if conc {
+				var wg sync.WaitGroup
+				startc := make(chan struct{})
+				for k := range reqs {
+					wg.Add(1)
+					go func(k int) {
+						defer wg.Done()
+						<-startc
+						var pv interface{}
+						impl[k], pv = serveOne(p, reqs[k])
+						if pv != nil {
+							impl[k] = true
+						}
+					}(k)
+				}
+				close(startc)
+				wg.Wait()
+			} else {
+				for k := range reqs {
+					var pv interface{}
+					impl[k], pv = serveOne(p, reqs[k])
+					if pv != nil {
+						run.Violation(run.NextID(), fmt.Sprint("request with access rules panicked: ", pv), reqs[k].remote)
+					}
+				}
+			}
+			ipTab := map[string]string{"": vh.None}
+			spTab := map[string]string{}
+			var reqTerms, implTerms, human []string
+			for k, q := range reqs {
+				host, _, err := net.SplitHostPort(q.remote)
+				if err != nil {
+					spTab[q.remote] = vh.None
+				} else {
+					spTab[q.remote] = vh.Some(vh.HxS(host))
+					ipTab[stripZone(host)] = coqOptIP(net.ParseIP(stripZone(host)))
+				}
+				for _, x := range strings.Split(strings.Join(q.xff, ","), ",") {
+					t := stripZone(strings.TrimSpace(x))
+					ipTab[t] = coqOptIP(net.ParseIP(t))
+				}
+				reqTerms = append(reqTerms, vh.Pair(vh.HxS(q.remote), strList(q.xff)))
+				implTerms = append(implTerms, vh.Bool(impl[k]))
+				human = append(human, fmt.Sprintf("%s xff=%q -> denied=%v", q.remote, q.xff, impl[k]))
+			}
+			var ipItems, spItems []string
+			for _, k := range sortedStrKeys(ipTab) {
+				ipItems = append(ipItems, vh.Pair(vh.HxS(k), ipTab[k]))
+			}
+			for _, k := range sortedStrKeys(spTab) {
+				spItems = append(spItems, vh.Pair(vh.HxS(k), spTab[k]))
+			}
+			class := "access-history-" + shape
+			if conc {
+				class += "-concurrent"
+			} else {
+				class += "-sequential"
+			}
+			run.Add(class, vh.App("CAccess", fmt.Sprintf("{| r_allow := %s; r_deny := %s |}", ra, rd), vh.List(ipItems), vh.List(spItems), vh.List(reqTerms), vh.Bool(conc), vh.List(implTerms)),
+				map[string]interface{}{"rule": rule, "history": human, "concurrent": conc})
+		}
+	}
+}
+
+func sortedStrKeys(m map[string]string) []string {
+	ks := make([]string, 0, len(m))
+	for k := range m {
+		ks = append(ks, k)
+	}
+	sort.Strings(ks)
+	return ks
+}
+
 // phase runs one part of the harness under a watchdog: real fabio code that blocks for ever (a mutex
 // that is never released, a lookup that never returns) must end the run with a violation instead of
 // hanging it until the driver's timeout.
@@ -1401,6 +1581,7 @@ func main() {
 	phase(run, "round robin per table generation", rrPerTable)
 	phase(run, "random picker", rndCases)
 	phase(run, "sequential lookups", lookupCases)
+	phase(run, "access decisions", accessCases)
 	phase(run, "glob cache, concurrent", globConcCases)
 	phase(run, "mixed stress", stress)
 	raceReports(run)
